@@ -127,6 +127,30 @@ def pick_kind(r, lat):
         return k
 
 
+def well_formed(a):
+    """every border point of the extent has finite lon/lat and projects back onto itself (no area beyond the apex of a
+    cone, beyond the limb of an orthographic hemisphere, beyond a pole); geos disks are exempt (space corners)"""
+    if a is None:
+        return False
+    if a["kind"] == "geos":
+        return True
+    from pyproj import Proj
+    p = Proj(a["proj"])
+    x0, y0, x1, y1 = a["extent"]
+    t = np.linspace(0.0, 1.0, 9)
+    xs = np.concatenate([x0 + (x1 - x0) * t, x0 + (x1 - x0) * t, np.full(9, x0), np.full(9, x1), [0.5 * (x0 + x1)]])
+    ys = np.concatenate([np.full(9, y0), np.full(9, y1), y0 + (y1 - y0) * t, y0 + (y1 - y0) * t, [0.5 * (y0 + y1)]])
+    with np.errstate(all="ignore"):
+        lon, lat = p(xs, ys, inverse=True)
+        if not (np.isfinite(lon).all() and np.isfinite(lat).all()):
+            return False
+        if a["kind"] == "longlat":
+            return bool((np.abs(ys) <= 90).all())
+        bx, by = p(lon, lat)
+    tol = 1e-6 * max(abs(x1 - x0), abs(y1 - y0))
+    return bool(np.isfinite(bx).all() and np.isfinite(by).all() and np.abs(bx - xs).max() <= tol and np.abs(by - ys).max() <= tol)
+
+
 def thin_shape(r, n=None):
     n = n or r.randint(2, 24)
     return r.choice([(1, n), (n, 1), (1, 1)])
@@ -138,7 +162,8 @@ def gen_pairs(ctx):
     cases = []
 
     def add(api, src, tgt, cls, **kw):
-        if src is None or tgt is None:
+        if not (well_formed(src) and well_formed(tgt)):
+            ctx.count("generator:ill_formed_area_discarded")
             return
         c = {"api": api, "src": src, "tgt": tgt, "cls": cls}
         c.update(kw)
@@ -615,6 +640,39 @@ def judge(case, o):
     return v
 
 
+def judge_scalar(c, res):
+    """oracle verdicts for one scalar-kernel case: list of (key, what)"""
+    k = c["kernel"]
+    v = []
+    if k == "create_slices":
+        if "sl" not in res and res.get("err") != "IncompatibleAreas":
+            v.append(("C11.crash.create_slices", "_create_slices_from_bounds(%s, %s) raises %s" % (c["xb"], c["yb"], res)))
+    elif k == "sanitize":
+        b = c["bounds"]
+        if not ("sl" in res or (res.get("err") == "IncompatibleAreas" and res.get("msg") in STAGE)):
+            v.append(("C11.crash.sanitize", "_sanitize_polygon_bounds/_create_slices_from_bounds(%s) on %s raises %s" % (b, c["src"], res)))
+        elif finite(*b):
+            # independent statement of the 'all outside' rule and of the slices (exact rationals)
+            c0, r0 = frac_index(c["src"], b[0], b[1])
+            c1, r1 = frac_index(c["src"], b[2], b[3])
+            H, W = c["src"]["shape"]
+            outside = (max(c0, c1) < 0) or (max(r0, r1) < 0) or (min(c0, c1) >= W) or (min(r0, r1) >= H)
+            want = None if outside else [max(math.floor(max(min(c0, c1), 0)) - 1, 0), math.ceil(max(c0, c1)) + 1,
+                                         max(math.floor(max(min(r0, r1), 0)) - 1, 0), math.ceil(max(r0, r1)) + 1]
+            if res.get("sl") != want:
+                v.append(("C11.bounds_to_slices", "bounds %s on %s give %s, required %s" % (b, c["src"], res, want)))
+    elif k == "ensure_int":
+        if "v" not in res or res["types"][:2] != ["int", "int"] or res["v"][0] > c["start"] or res["v"][1] < c["stop"] \
+                or res["v"][0] <= c["start"] - 1 or res["v"][1] >= c["stop"] + 1:
+            v.append(("C11.ensure_integer_slice", "_ensure_integer_slice(slice(%r, %r)) -> %s is not the enclosing integer slice"
+                      % (c["start"], c["stop"], res)))
+    elif k == "orientation":
+        if "v" not in res or res["v"][:2] != [c["start"], c["stop"]] or (res["v"][2] not in (None, -1)) \
+                or ((res["v"][2] == -1) != (c["start"] > c["stop"])):
+            v.append(("C11.check_slice_orientation", "check_slice_orientation(slice(%d, %d)) -> %s" % (c["start"], c["stop"], res)))
+    return v
+
+
 def run(ctx):
     ctx.rule = ("seeded pairs of areas: CRS pool (laea, stere N/S, longlat, merc, eqc, ortho, lcc, geos full/partial disk) x scenes x "
                 "relation (inside, partial, corner, contains, disjoint) x target thickness ((1,n),(n,1),(1,1) in ~22%), polar "
@@ -688,59 +746,36 @@ def run(ctx):
     for c, o in zip(scal, obs_scal):
         k = c["kernel"]
         res = o["res"]
+        verdicts = judge_scalar(c, res)
+        for key, what in verdicts:
+            ctx.add_failure(key, what, {"case": c, "impl": res})
         if k == "create_slices":
             xb, yb = c["xb"], c["yb"]
             inf = not finite(*(xb + yb))
             ctx.case(("cs", repr(xb), repr(yb)), nontrivial=inf or min(xb) < 0 or min(yb) < 0)
             ctx.count("scalar:create_slices")
-            if "sl" in res:
-                exp = [0] + res["sl"]
-            elif res.get("err") == "IncompatibleAreas":
-                exp = [4, 0, 0, 0, 0]
-            else:
-                ctx.add_failure("C11.crash.create_slices", "_create_slices_from_bounds(%s, %s) raises %s" % (xb, yb, res), {"case": c, "impl": res})
+            if verdicts:
                 continue
+            exp = [0] + res["sl"] if "sl" in res else [4, 0, 0, 0, 0]
             L_create.append("((%s, %s), (%s, %s), %s)" % (fhex(xb[0]), fhex(xb[1]), fhex(yb[0]), fhex(yb[1]), zl(exp)))
         elif k == "sanitize":
             b = c["bounds"]
-            if "sl" in res:
-                exp = [0] + res["sl"]
-            elif res.get("err") == "IncompatibleAreas" and res.get("msg") in STAGE:
-                exp = [STAGE[res["msg"]], 0, 0, 0, 0]
-            else:
-                ctx.add_failure("C11.crash.sanitize", "_sanitize_polygon_bounds/_create_slices_from_bounds(%s) on %s raises %s" % (b, c["src"], res),
-                                {"case": c, "impl": res})
+            if not ("sl" in res or (res.get("err") == "IncompatibleAreas" and res.get("msg") in STAGE)):
                 continue
+            exp = [0] + res["sl"] if "sl" in res else [STAGE[res["msg"]], 0, 0, 0, 0]
             ctx.case(("sa", repr(c["src"]), repr(b)), nontrivial=exp[0] != 0 or exp[1] == 0 or exp[3] == 0)
             ctx.count("scalar:sanitize_stage_%d" % exp[0])
             L_crop.append("(true, true, %s, (%s, %s, %s, %s), %s)" % (farea(c["src"]), fhex(b[0]), fhex(b[1]), fhex(b[2]), fhex(b[3]), zl(exp)))
-            # independent statement of the 'all outside' rule and of the slices (exact rationals on the dyadic grid)
-            if finite(*b):
-                c0, r0 = frac_index(c["src"], b[0], b[1])
-                c1, r1 = frac_index(c["src"], b[2], b[3])
-                H, W = c["src"]["shape"]
-                outside = (max(c0, c1) < 0) or (max(r0, r1) < 0) or (min(c0, c1) >= W) or (min(r0, r1) >= H)
-                want = None if outside else [max(math.floor(max(min(c0, c1), 0)) - 1, 0), math.ceil(max(c0, c1)) + 1,
-                                             max(math.floor(max(min(r0, r1), 0)) - 1, 0), math.ceil(max(r0, r1)) + 1]
-                got = res.get("sl")
-                if got != want:
-                    ctx.add_failure("C11.bounds_to_slices", "bounds %s on %s give %s, required %s" % (b, c["src"], res, want),
-                                    {"case": c, "impl": res})
         elif k == "ensure_int":
             ctx.case(("ei", c["start"], c["stop"]), nontrivial=c["start"] != int(c["start"]) or c["stop"] != int(c["stop"]))
             ctx.count("scalar:ensure_integer_slice")
-            if "v" not in res or res["types"][:2] != ["int", "int"] or res["v"][0] > c["start"] or res["v"][1] < c["stop"] \
-                    or res["v"][0] <= c["start"] - 1 or res["v"][1] >= c["stop"] + 1:
-                ctx.add_failure("C11.ensure_integer_slice", "_ensure_integer_slice(slice(%r, %r)) -> %s is not the enclosing integer slice"
-                                % (c["start"], c["stop"], res), {"case": c, "impl": res})
+            if verdicts:
                 continue
             L_ens.append("(%s, %s, (%d, %d))" % (fhex(c["start"]), fhex(c["stop"]), res["v"][0], res["v"][1]))
         elif k == "orientation":
             ctx.case(("or", c["start"], c["stop"]), nontrivial=c["start"] > c["stop"])
             ctx.count("scalar:check_slice_orientation")
-            if "v" not in res or res["v"][:2] != [c["start"], c["stop"]]:
-                ctx.add_failure("C11.check_slice_orientation", "check_slice_orientation(slice(%d, %d)) -> %s changes the bounds"
-                                % (c["start"], c["stop"], res), {"case": c, "impl": res})
+            if "v" not in res:
                 continue
             L_ori.append("(%d, %d, %d)" % (c["start"], c["stop"], res["v"][2] or 0))
 
@@ -779,6 +814,6 @@ def replay(ctx, data):
     case = data["case"]["case"]
     o = ctx.impl("c11", {"cases": [public_case(case)]})["results"][0]
     if case["api"] == "scalar":
-        return o["res"] == data["case"]["impl"] and "err" in o["res"]
+        return bool(judge_scalar(case, o["res"]))
     c = dict(case)
     return bool(judge(c, o))
